@@ -19,6 +19,7 @@ structure Sess where
   zit   : Option (Nat × Nat × ArraySized.Iter) := none
   sit   : Option (Nat × Cursor Elem) := none
   szit  : Option (Nat × Nat × ZipCursor Elem) := none
+  zsame : Nat × Bool := (0, false)      -- ideal cursor of a zip iterator with the same array on both sides
 
 def getSlot {β : Type} (l : List (Option β)) (k : Nat) : Option β := (l[k]?).getD none
 def setSlot {β : Type} (l : List (Option β)) (k : Nat) (v : Option β) : List (Option β) := l.set k v
@@ -179,6 +180,44 @@ def step (s : Sess) (c : Cmd) : Sess × String × String :=
     | some (k1, k2, it), some (_, _, cur0) =>
       match getSlot s.model k1, getSlot s.model k2, getSlot s.spec k1, getSlot s.spec k2 with
       | some a1, some a2, some xs, some ys =>
+        if k1 == k2 then
+          /- ar1 == ar2: one array state threaded through both halves of every call -/
+          let a := a1
+          let e1 := enc a.dataLen (c.arg 0)
+          let e2 := enc a.dataLen (c.arg 1)
+          let z := enc a.dataLen 0
+          let (pos, rem) := s.zsame
+          let pr (o : Option (Elem × Elem)) (st : Stat) : Option String × Option String :=
+            if st = .ok then (o.map fun p => toString (dec p.1), o.map fun p => toString (dec p.2)) else (none, none)
+          let fin (it : ArraySized.Iter) (a : ArraySized) (m : Mem) (xs : List Elem) (zs : Nat × Bool) (hS hM : String) :=
+            lines hS hM { s with model := setSlot s.model k1 (some a), spec := setSlot s.spec k1 (some xs),
+                                 mem := m, zit := some (k1, k2, it), zsame := zs }
+          match c.op with
+          | "zit_next" =>
+            let r := ArraySized.zipNext it a a m
+            let sr := Spec.SSeq.Same.next xs pos
+            fin r.2.2.1 a r.2.2.2 xs (sr.2.2, if sr.1 = .ok then false else rem)
+              (hdr (some sr.1) (pr sr.2.1 sr.1).1 (pr sr.2.1 sr.1).2) (hdr (some r.1) (pr r.2.1 r.1).1 (pr r.2.1 r.1).2)
+          | "zit_add" =>
+            let r := ArraySized.zipAddSame it a e1 e2 m
+            let (sst, xs', pos') := match refusal with
+              | some st => (st, xs, pos)
+              | none => let q := Spec.SSeq.Same.add xs pos e1 e2; (Stat.ok, q.1, q.2)
+            fin r.2.1 r.2.2.1 r.2.2.2 xs' (pos', rem) (hdr (some sst)) (hdr (some r.1))
+          | "zit_remove" =>
+            let r := ArraySized.zipRemoveSame it a m
+            let sr := Spec.SSeq.Same.remove z xs pos rem
+            fin r.2.2.1 r.2.2.2.1 r.2.2.2.2 sr.2.2.1 (sr.2.2.2.1, sr.2.2.2.2)
+              (hdr (some sr.1) (pr sr.2.1 sr.1).1 (pr sr.2.1 sr.1).2) (hdr (some r.1) (pr r.2.1 r.1).1 (pr r.2.1 r.1).2)
+          | "zit_replace" =>
+            let r := ArraySized.zipReplaceSame it a e1 e2 m
+            let sr := Spec.SSeq.Same.replace z xs pos e1 e2
+            fin it r.2.2.1 r.2.2.2 sr.2.2 (pos, rem)
+              (hdr (some sr.1) (pr sr.2.1 sr.1).1 (pr sr.2.1 sr.1).2) (hdr (some r.1) (pr r.2.1 r.1).1 (pr r.2.1 r.1).2)
+          | _ =>
+            fin it a m xs (pos, rem) (hdr none (some (toString (Spec.SSeq.wdec pos))))
+              (hdr none (some (toString (ArraySized.iterIndex it))))
+        else
         let cur := rebaseZ cur0 xs ys
         let e1 := enc a1.dataLen (c.arg 0)
         let e2 := enc a2.dataLen (c.arg 1)
@@ -250,7 +289,7 @@ def step (s : Sess) (c : Cmd) : Sess × String × String :=
     match getSlot s.model k, getSlot s.model k2, getSlot s.spec k, getSlot s.spec k2 with
     | some a1, some a2, some xs, some ys =>
       if c.op == "zit_new" then
-        simple { s with zit := some (k, k2, {}), szit := some (k, k2, ZipCursor.start xs ys) } "st=-"
+        simple { s with zit := some (k, k2, {}), szit := some (k, k2, ZipCursor.start xs ys), zsame := (0, false) } "st=-"
       else
         let r := foreachZipM a1 a2 m
         let scb := (xs.zip ys).map fun p => (p.1, some p.2)
